@@ -608,7 +608,7 @@ def seeded_items(rng, n):
 # ---------------------------------------------------------------------------------------------
 class Rendered:
     """lines + what is known by construction:
-       obs: [('file', name, content) | ('probe', id, argv)] ; error: None | 'SYNTAX_ERROR' ; first_line_offset"""
+       obs: [('file', name, content) | ('probe', id, argv)] ; error: None | 'SYNTAX_ERROR' ; cls/feat/more_cls: class keys"""
     __slots__ = ('lines', 'obs', 'error', 'cls', 'feat', 'more_cls', 'counter', 'n_strings')
 
 
